@@ -78,9 +78,9 @@ def run(R, ctx):
     if hd["mismatches"]:
         R.violation("pubsub-stall-lean", dict(kind="impl-violates-spec", engine="conc",
                                               summary="the history observed with a slow subscriber is not a history of the model PSS: " + hd["mismatches"][0][:400],
-                                              args=["conc", str(R.seed), "1", "pubsub"],
+                                              args=["conc", str(R.seed), "1", "pubsub"], check="psh",
                                               explanation="scenario pubsub-stall (harness/conc_pubsub_stall.go) judged by PSS.Hist.judge (lean/RedisGoModel/Conc/PubSubSlow.lean): "
-                                                          "theorems PSS.healthy_not_affected / stall_only_delays_partial / confirm_after_join speak about this model"))
+                                                          "theorems PSS.healthy_not_affected / stall_only_delays / confirm_after_join speak about this model"))
     R.rule = rule + (" Concurrent exploration: 3 stable subscribers on two channels that keep issuing PING on their own connections, 4 publishers "
                      "publishing 25 messages each (8 B to 70 kB, CR/LF inside) and 2 churn connections subscribing and disconnecting; every subscriber's "
                      "byte stream must be well-formed pushes containing each message exactly once, intact, each publisher's in order; PUBLISH counts at "
@@ -90,7 +90,34 @@ def run(R, ctx):
                      "automaton of the Lean model PSC (Conc/PubSubConc.lean) - the hypotheses of PSC.lock_order / pubsub_deadlock_free / send_sees_consistent_set.")
 
 
+def replay_psh(R, payload):
+    """run the pubsub scenarios again and let the Lean model judge the pubsub-stall histories (driver engine PSH)"""
+    import json
+    binary, err = core.build_harness()
+    if not binary:
+        print(err)
+        return 1
+    rc, so, se, dt = core.run([binary] + payload["args"], env=core.goenv(), timeout=600)
+    lines = []
+    for l in so.split("\n"):
+        if l.strip().startswith("{"):
+            try:
+                r = json.loads(l)
+            except ValueError:
+                continue
+            if r.get("scenario") == "pubsub-stall" and r.get("hist"):
+                lines.append("PSH replay-stall-%s %s" % (r.get("seed"), r["hist"]))
+    d = core.run_driver(lines) if lines else dict(mismatches=["no pubsub-stall history was produced"])
+    for m in d["mismatches"]:
+        print(m[:600])
+    bad = bool(d["mismatches"])
+    print("replay: %d histories judged by PSS.Hist.judge: %s" % (len(lines), "still failing" if bad else "not reproduced"))
+    return 1 if bad else 0
+
+
 def replay(R, payload):
+    if payload.get("check") == "psh":
+        return replay_psh(R, payload)
     if payload.get("engine") == "conc":
         return concsuite.replay_conc(R, payload)
     return core.generic_replay(R, payload)
